@@ -26,7 +26,7 @@ def suite(wt):
 
 
 def verify(pid, k, outdir="out", tag="m"):
-    wt = "/tmp/wt/%s" % pid
+    wt = os.environ.get("SEED_WT") or "/tmp/wt/%s" % pid
     out = os.path.join(wt, outdir)
     patch = os.path.join(out, "mutant%s.diff" % k)
     demo = os.path.join(out, "demo%s.rs" % k)
@@ -74,7 +74,7 @@ def verify(pid, k, outdir="out", tag="m"):
             "needs_to_manifest": meta.get("needs_to_manifest"),
             "files_changed": meta.get("files_changed"),
             "confirmed_by_me": {a: b for a, b in res.items() if "output" not in a},
-            "what_i_ran": ["git apply patch.diff (scratch worktree /tmp/wt/%s)" % pid, "pinned suite: cargo nextest run --workspace ... (1945 pass)", res["demo_command"] + " (fails with, passes without)"],
+            "what_i_ran": ["git apply patch.diff (scratch worktree %s)" % wt, "pinned suite: cargo nextest run --workspace ... (1945 pass)", res["demo_command"] + " (fails with, passes without)"],
         }
         json.dump(meta2, open(os.path.join(d, "meta.json"), "w"), indent=1)
     return 0 if good else 1
